@@ -99,6 +99,9 @@ pub fn header_pairs() -> Vec<(Item, Item)> {
         b(b"\x01"),
         arr(vec![arr(vec![u(1)])]),
         arr(vec![u(1), u(8)]),
+        arr(vec![u(5), u(6)]),
+        arr(vec![u(6), u(4), u(5)]),
+        arr(vec![u(1), u(2), u(3), u(4), u(5), u(6), u(7), u(9), u(10), u(32), u(33), u(34), u(35), u(256), u(257), t("x")]),
     ] {
         p.push((u(2), v));
     }
@@ -119,6 +122,11 @@ pub fn header_pairs() -> Vec<(Item, Item)> {
         t("a/b\t"),
         t("a/b\n"),
         t("a /b"),
+        t("\u{0b}a/b"),
+        t("a/b\u{0c}"),
+        t("a/b\r"),
+        t("\u{a0}a/b"),
+        t("a/b\u{3000}"),
         t("\u{e9}/x"),
         t("\u{65e5}\u{672c}/x"),
         t("\u{65e5}/x"),
@@ -283,6 +291,9 @@ pub fn key_pairs() -> Vec<(Item, Item)> {
         arr(vec![NULL]),
         arr(vec![t("x"), t("y"), u(3)]),
         arr(vec![u(1), u(2), u(1)]),
+        arr((1..=10u64).map(u).chain(std::iter::once(t("audit"))).collect()),
+        arr((0..12).map(|k| t(&format!("op{}", k))).collect()),
+        arr((1..=10u64).rev().map(u).chain([t("b"), t("a"), t("b")]).collect()),
         arr(vec![u(1), u(11)]),
         arr(vec![u(1), NULL]),
         arr(vec![t("a"), u(1), t("a")]),
@@ -439,6 +450,9 @@ pub fn msg_slots() -> Vec<Item> {
         Item::tag(18, arr(vec![])),
         // a bare COSE_Signature / COSE_recipient where an array of them belongs
         sig_valid(),
+        // an empty map followed by something inside the protected bstr
+        Item::Bytes(vec![0xa0, 0x00]),
+        Item::Bytes(vec![0xa0, 0xa1, 0x01, 0x26]),
         // protected header written as an indefinite-length map
         Item::Bytes(vec![0xbf, 0x01, 0x26, 0xff]),
     ]
